@@ -221,12 +221,90 @@ class Inliner:
             if isinstance(s, ast.Try):
                 for h in s.handlers:
                     h.body = self.block(h.body, ctx, stack)
+            self.expand_pure_in_scopes(s, ctx, stack)
             pre = self.expand_in_statement(s, ctx, stack)
             if pre is None:
                 out.append(s)
             else:
                 out.extend(pre)
         return out
+
+    def expand_pure_in_scopes(self, s: ast.stmt, ctx: _Def, stack):
+        """inside comprehensions and lambdas only helpers that are one `return
+        <expr>` can be expanded (there is no statement position to splice into)"""
+        for fld, val in ast.iter_fields(s):
+            if fld in ("body", "orelse", "finalbody", "handlers") and isinstance(val, list) and val and isinstance(val[0], (ast.stmt, ast.ExceptHandler)):
+                continue
+            for root in (val if isinstance(val, list) else [val]):
+                if not isinstance(root, ast.AST):
+                    continue
+                for scope in [n for n in ast.walk(root) if isinstance(n, (ast.Lambda, ast.ListComp, ast.SetComp, ast.DictComp, ast.GeneratorExp))]:
+                    guard = 0
+                    changed = True
+                    while changed and guard < 8:
+                        guard += 1
+                        changed = False
+                        for call in [c for c in ast.walk(scope) if isinstance(c, ast.Call)]:
+                            r = self.resolve(call, ctx)
+                            if r is None:
+                                continue
+                            d, recv = r
+                            if d is None or not self.is_new(d) or d in stack or len(stack) > MAX_DEPTH:
+                                continue
+                            e = self.pure_expression(call, d, recv, stack)
+                            if e is None:
+                                continue
+                            _replace_node(scope, call, e)
+                            self.expanded.append(d.qualname)
+                            changed = True
+                            break
+
+    def pure_expression(self, call: ast.Call, d: _Def, recv, stack) -> Optional[ast.AST]:
+        g = d.node
+        a = g.args
+        if a.vararg or a.kwarg or d.kind not in ("function", "static", "method", "nested"):
+            return None
+        if any(isinstance(x, ast.Starred) for x in call.args) or any(k.arg is None for k in call.keywords):
+            return None
+        self.transform_def(d, stack)
+        body = [x for x in g.body if not (isinstance(x, ast.Expr) and isinstance(x.value, ast.Constant))]
+        if len(body) != 1 or not isinstance(body[0], ast.Return) or body[0].value is None:
+            return None
+        names = [x.arg for x in a.posonlyargs + a.args]
+        bind: Dict[str, ast.AST] = {}
+        if d.kind == "method":
+            if recv is None or not names:
+                return None
+            bind[names[0]] = recv
+            names = names[1:]
+        if len(call.args) > len(names):
+            return None
+        for n_, v in zip(names, call.args):
+            bind[n_] = v
+        params = [x.arg for x in a.posonlyargs + a.args + a.kwonlyargs]
+        for k in call.keywords:
+            if k.arg in bind or k.arg not in params:
+                return None
+            bind[k.arg] = k.value
+        pos = a.posonlyargs + a.args
+        defaults = dict(zip([x.arg for x in pos[len(pos) - len(a.defaults):]], a.defaults))
+        defaults.update({x.arg: dv for x, dv in zip(a.kwonlyargs, a.kw_defaults) if dv is not None})
+        for p_ in params:
+            if p_ not in bind:
+                if p_ not in defaults:
+                    return None
+                bind[p_] = defaults[p_]
+        expr = body[0].value
+        uses: Dict[str, int] = {}
+        for n in ast.walk(expr):
+            if isinstance(n, ast.Name) and isinstance(n.ctx, ast.Load):
+                uses[n.id] = uses.get(n.id, 0) + 1
+            if isinstance(n, (ast.Lambda, ast.ListComp, ast.SetComp, ast.DictComp, ast.GeneratorExp, ast.NamedExpr)):
+                return None
+        for p_ in params:
+            if not (_simple(bind[p_]) or uses.get(p_, 0) <= 1):
+                return None
+        return _Rename({}, {p_: bind[p_] for p_ in params}).visit(clone_ast(expr))
 
     def _header_exprs(self, s: ast.stmt) -> List[Tuple[ast.AST, str]]:
         if isinstance(s, (ast.Assign, ast.AnnAssign, ast.AugAssign, ast.Return)):
@@ -473,6 +551,12 @@ class Inliner:
                     for st in new:
                         _stamp(st, s)
                     return new, None, True
+        # `... ; return local` as the only exit: the local itself stands for the call
+        if body and isinstance(body[-1], ast.Return) and isinstance(body[-1].value, ast.Name) and len(_returns_of(body)) == 1 and not _has_return_in_loop(body[:-1]):
+            new = pre + body[:-1]
+            for st in new:
+                _stamp(st, s)
+            return new, ast.Name(id=body[-1].value.id, ctx=ast.Load()), False
         ret = "ret" + tag
         conv = _single_exit(body, ret)
         if conv is None:
